@@ -299,7 +299,7 @@ var storageMixes = map[string]storageMix{
 	"proofs":     {"proofs", 5, 14, 3, 55, 8, 3, 6, 2, 7, 6, 9, 16},
 	"payments":   {"payments", 40, 25, 8, 10, 5, 2, 4, 2, 6, 50, 100, 1024},
 	"plans":      {"plans", 22, 38, 22, 8, 4, 1, 2, 1, 5, 4, 6, 32},
-	"forms":      {"forms", 3, 8, 2, 20, 17, 20, 26, 3, 8, 8, 12, 32},
+	"forms":      {"forms", 8, 14, 2, 30, 12, 16, 22, 2, 8, 8, 12, 32},
 	"collateral": {"collateral", 2, 3, 1, 4, 70, 2, 4, 14, 6, 8, 12, 32},
 }
 
@@ -438,11 +438,14 @@ func (g *storageGen) next() (sdk.Msg, map[string]interface{}, func(pre, post stS
 			note = "nope"
 		}
 		merkle := df.root
-		if len(files) > 0 && r.Intn(8) == 0 { // re-post an existing merkle (same-block re-post when heights match)
+		if len(files) > 0 && r.Intn(6) == 0 { // re-post an existing merkle (same-block re-post when heights match)
 			f := files[r.Intn(len(files))]
 			merkle = f.Merkle
-			if r.Intn(2) == 0 {
+			if r.Intn(3) > 0 {
 				creator = f.Owner
+			}
+			if r.Intn(2) == 0 { // the second copy agrees with the first in everything but its start height
+				expires, size, maxProofs = f.Expires, f.FileSize, f.MaxProofs
 			}
 		}
 		msg := &sttypes.MsgPostFile{Creator: creator, Merkle: merkle, FileSize: size, ProofType: 0, MaxProofs: maxProofs, Expires: expires, Note: note}
@@ -523,10 +526,10 @@ func (g *storageGen) next() (sdk.Msg, map[string]interface{}, func(pre, post stS
 		}
 	case k < m.buy+m.post+m.del+m.proof+m.prov:
 		creator := g.user()
-		if _, found := c.A.StorageKeeper.GetProviders(c.Ctx(), creator); found && r.Intn(3) == 0 {
+		if _, found := c.A.StorageKeeper.GetProviders(c.Ctx(), creator); found && r.Intn(map[bool]int{true: 9, false: 3}[m.name == "forms"]) == 0 {
 			return &sttypes.MsgShutdownProvider{Creator: creator}, map[string]interface{}{"shutdownProvider": map[string]interface{}{"creator": creator}}, nil
 		}
-		if r.Intn(8) == 0 {
+		if r.Intn(map[bool]int{true: 25, false: 8}[m.name == "forms"]) == 0 {
 			return &sttypes.MsgShutdownProvider{Creator: creator}, map[string]interface{}{"shutdownProvider": map[string]interface{}{"creator": creator}}, nil
 		}
 		ip := g.ips[r.Intn(len(g.ips))]
@@ -538,6 +541,9 @@ func (g *storageGen) next() (sdk.Msg, map[string]interface{}, func(pre, post stS
 		prover := creator
 		if len(files) > 0 {
 			f := files[r.Intn(len(files))]
+			for try := 0; try < 6 && len(f.Proofs) == 0; try++ { // forms are about files somebody claims to store
+				f = files[r.Intn(len(files))]
+			}
 			merkle, owner, start = f.Merkle, f.Owner, f.Start
 			if len(f.Proofs) > 0 && r.Intn(4) > 0 {
 				prover = strings.Split(f.Proofs[r.Intn(len(f.Proofs))], "/")[0]
@@ -626,7 +632,7 @@ func runStorage(profile string, seed int64, histories, steps int, out *Emitter) 
 			sg.Params.CheckWindow = mix.checkWindow + int64(r.Intn(5))
 			sg.Params.ChunkSize = mix.chunk
 			sg.Params.PolRatio, sg.Params.ReferralCommission = pr[0], pr[1]
-			sg.Params.AttestFormSize = int64(1 + r.Intn(4))
+			sg.Params.AttestFormSize = []int64{1, 1, 2, 2, 3, 4}[r.Intn(6)]
 			sg.Params.AttestMinToPass = int64(r.Intn(int(sg.Params.AttestFormSize) + 1))
 			sg.Params.CollateralPrice = []int64{2, 1000, 10_000_000_000}[r.Intn(3)]
 			if r.Intn(3) == 0 {
@@ -647,7 +653,8 @@ func runStorage(profile string, seed int64, histories, steps int, out *Emitter) 
 			g.users = append(g.users, u.String())
 		}
 		sort.Strings(g.users)
-		g.ips = []string{"https://a.example.com", "https://b.example.com", "https://node.other.org", "http://10.0.0.1:3333", "https://x.jackal.io", "localhost", "https://single", "not a url", "https://c.example.com:443/path"}
+		g.ips = []string{"https://a.example.com", "https://b.example.com", "https://node.other.org", "http://10.0.0.1:3333", "https://x.jackal.io", "localhost", "https://single", "not a url", "https://c.example.com:443/path",
+			"https://s1.alpha.net", "https://s2.beta.org", "https://gamma.io", "https://store.delta.dev", "https://eps.xyz:8080"}
 		c.Begin(6 * time.Second)
 		for i := 0; i < steps; i++ {
 			if r.Intn(4) == 0 { // block boundary: one step record for the storage BeginBlocker
@@ -726,11 +733,13 @@ func runStorage(profile string, seed int64, histories, steps int, out *Emitter) 
 					var rr sttypes.MsgRequestAttestationFormResponse
 					if rr.Unmarshal(res.Data) == nil {
 						success = rr.Success
+						res.Err = rr.Error
 					}
 				case *sttypes.MsgRequestReportForm:
 					var rr sttypes.MsgRequestReportFormResponse
 					if rr.Unmarshal(res.Data) == nil {
 						success = rr.Success
+						res.Err = rr.Error
 					}
 				}
 			}
